@@ -2,3 +2,4 @@ import EmdProps.C20
 import EmdProps.C01
 import EmdProps.C07
 import EmdProps.C08
+import EmdProps.C09
